@@ -1309,17 +1309,17 @@ var c15Witnesses = map[string][]string{
 		"xferowner 0 102",
 		"begin 3601", "end", "begin 3601", "end", "begin 3601", "end",
 	},
-	// governance re-targets a half-served stream in the middle of the epoch (limit 1): gauge 3 gets the whole
+	// governance re-targets a half-served stream in the middle of the epoch (limit 1): gauge 2 gets the whole
 	// epoch amount on top of what gauge 1 already got; stream 1 hands out 1500 of 1000 and the next EndBlock
-	// cannot pay stream 2
+	// cannot pay stream 2 (the first `begin 3601` only activates the streams; the second starts their epoch)
 	"retarget-mid-epoch": {
 		"maxiter 1",
 		"begin 1", "end",
 		"mkgauge 0 1 0 1 0,0 NOW 1", "mkgauge 0 1 0 1 0,0 NOW 1", "mkgauge 0 1 0 1 0,0 NOW 1",
 		"lock 1 0 100 3600",
 		"fund 100 2000,0",
-		"mkstream 1000,0 1:1,3:1 NOW 1 1", "mkstream 1000,0 2:1 NOW 1 1",
-		"begin 3601", "end", "replace 1 3:1", "begin 10", "end", "begin 10", "end",
+		"mkstream 1000,0 1:1,2:1 NOW 1 2", "mkstream 1000,0 3:1 NOW 1 2",
+		"begin 3601", "end", "begin 3601", "end", "replace 1 2:1", "begin 10", "end", "begin 10", "end",
 	},
 	// governance terminates stream 1 while the hour pointer points into it (limit 1): the bisection resolves the
 	// pointer (1, gauge 2) to stream 2 and skips stream 2's gauge 1 for this epoch
@@ -1330,7 +1330,7 @@ var c15Witnesses = map[string][]string{
 		"lock 1 0 100 3600",
 		"fund 100 6000,0",
 		"mkstream 3000,0 1:1,2:1,3:1 NOW 1 2", "mkstream 3000,0 1:1,2:1,3:1 NOW 1 2",
-		"begin 3601", "end", "term 1", "begin 10", "end", "begin 10", "end", "begin 10", "end", "begin 3601", "end",
+		"begin 3601", "end", "begin 3601", "end", "term 1", "begin 10", "end", "begin 10", "end", "begin 10", "end", "begin 3601", "end",
 	},
 	// a stream that becomes active at another identifier's epoch start is served in its first (partial)
 	// epoch only if the pointer of its own epoch has not yet reached the end
